@@ -13,7 +13,7 @@ open Hts.Model
 def toBytesCodec (c : CodecFns) : BgzfBytes.Codec :=
   { inflate := fun b => match c.inflate b with
       | some (p, u) => .ok p u
-      | none => .fail 0
+      | none => .fail 0 0
     crc32 := c.crc32 }
 
 /-- length of the gzip header of a member under `h` -/
@@ -183,7 +183,8 @@ theorem readBlock_bytes (q : BgzfBytes.Quirks) (c : Codec) (h : Header) (p rest 
     simp only [BgzfBytes.readMember, hrh', hex, expectedMemberSize_bytes _ hb, hne1, hne2, if_false, hdrop, hneed]
     generalize c.deflate p ++ (le32 (c.crc32 p) ++ le32 (p.length % 2 ^ 32)) = B
     rw [if_pos (by simp), List.take_left, List.drop_left]
-  have hgz : BgzfBytes.gzBody (toBytesCodec c.toCodecFns) (c.deflate p ++ (le32 (c.crc32 p) ++ le32 (p.length % 2 ^ 32))) = .ok p := by
+  have hgz : BgzfBytes.gzBody (toBytesCodec c.toCodecFns) (c.deflate p ++ (le32 (c.crc32 p) ++ le32 (p.length % 2 ^ 32))) =
+      .ok (p, !p.isEmpty) := by
     have hinf : (toBytesCodec c.toCodecFns).inflate (c.deflate p ++ (le32 (c.crc32 p) ++ le32 (p.length % 2 ^ 32))) =
         .ok p (c.deflate p).length := by
       simp [toBytesCodec, c.inflate_deflate]
@@ -195,20 +196,20 @@ theorem readBlock_bytes (q : BgzfBytes.Quirks) (c : Codec) (h : Header) (p rest 
     rw [BgzfBytes.gzBody, hinf]
     simp only [List.drop_left, l8, t4, d4, t4', d8, leNat_le32 _ hcrc, leNat_le32 _ hisz, dite_false, BgzfBytes.readHeader]
     simp [toBytesCodec]
-  simp only [BgzfBytes.readBlock, hrm, hgz]
-  simp [BgzfBytes.MaxBlockSize, BgzfWriter.MaxBlockSize] at hp ⊢
-  omega
+  have hp' : p.length ≤ BgzfBytes.MaxBlockSize := hp
+  simp only [BgzfBytes.readBlock, hrm, hgz, BgzfBytes.readToEOF, hp', if_true]
 
 
 /-- the EOF marker as a member of C10's lemma library -/
 def markerM : Hts.Lemmas.BgzfBytes.Member :=
-  { m0 := 0, m1 := 0, m2 := 0, m3 := 0, xfl := 0, os := 255, cdata := [3, 0], crc := [0, 0, 0, 0], isize := [0, 0, 0, 0],
+  { header := Hts.Lemmas.BgzfBytes.canonHeader 0 0 0 0 0 255 28, cdata := [3, 0], crc := [0, 0, 0, 0], isize := [0, 0, 0, 0],
     payload := [] }
 
 theorem markerM_bytes : markerM.bytes = magicBlock := by decide
 
 theorem markerM_wf (c : Codec) : markerM.WellFramed (toBytesCodec c.toCodecFns) :=
-  { crcLen := rfl, isizeLen := rfl, sizeOk := by decide,
+  { hdrOk := Hts.Lemmas.BgzfBytes.canonHeader_ok _ 0 0 0 0 0 255 (by decide) (by decide),
+    crcLen := rfl, isizeLen := rfl,
     inflates := by simp [toBytesCodec, markerM, Hts.Lemmas.BgzfBytes.Member.body, c.inflate_marker],
     crcOk := by simp [toBytesCodec, markerM, BgzfBytes.leNat, c.crc32_nil],
     isizeOk := by simp [markerM, BgzfBytes.leNat],
@@ -240,5 +241,169 @@ theorem readAll_closed (q : BgzfBytes.Quirks) (c : Codec) (h : Header) (hr : Rea
     rw [BgzfBytes.readAll, hrb]
     simp only [List.length_append]
     rw [dif_pos (by omega), ih (fun x hx => hws x (by simp [hx]))]
+
+/-! ### the writer's header layout is a `HeaderOk` header of C10's lemma library (any Name/Comment/Extra) -/
+
+/-- the gzip header bgzf.Writer writes under header settings `h`, with `bsz` in the BSIZE field -/
+def writerHeader (c : CodecFns) (h : Header) (bsz : Nat) : List Byte :=
+  0x1f :: 0x8b :: 8 :: flgOf h ::
+  UInt8.ofNat (h.mtime % 2 ^ 32 % 256) :: UInt8.ofNat (h.mtime % 2 ^ 32 / 256 % 256) ::
+  UInt8.ofNat (h.mtime % 2 ^ 32 / 65536 % 256) :: UInt8.ofNat (h.mtime % 2 ^ 32 / 16777216 % 256) ::
+  c.xfl :: h.os ::
+  UInt8.ofNat ((6 + h.extra.length) % 256) :: UInt8.ofNat ((6 + h.extra.length) / 256 % 256) ::
+  66 :: 67 :: 2 :: 0 :: UInt8.ofNat (bsz % 256) :: UInt8.ofNat (bsz / 256 % 256) ::
+  (h.extra ++ (optz (decide (h.name ≠ [])) (h.name.map UInt8.ofNat) ++
+    optz (decide (h.comment ≠ [])) (h.comment.map UInt8.ofNat)))
+
+theorem readString_short (i : Nat) (bs : List Byte) (hz : ∀ b ∈ bs, b ≠ 0) (hl : i + bs.length < 512) :
+    BgzfBytes.readString i bs = .error .unexpectedEOF := by
+  induction bs generalizing i with
+  | nil =>
+    have : ¬ i ≥ 512 := by simp at hl; omega
+    simp [BgzfBytes.readString, this]
+  | cons b bs ih =>
+    have hb : b ≠ 0 := hz b (by simp)
+    have hi : ¬ i ≥ 512 := by simp at hl; omega
+    simp only [BgzfBytes.readString, hi, if_false, hb]
+    exact ih (i + 1) (fun x hx => hz x (by simp [hx])) (by simp at hl ⊢; omega)
+
+/-- a cut inside an optional NUL-terminated field is a short read -/
+theorem readOptString_cut (pn : Bool) (nm : List Byte) (hz : ∀ b ∈ nm, b ≠ 0) (hl : nm.length < 512) (i : Nat)
+    (hi : i < (optz pn nm).length) :
+    BgzfBytes.readOptString pn ((optz pn nm).take i) = .error .unexpectedEOF := by
+  cases pn with
+  | false => simp [optz] at hi
+  | true =>
+    simp only [optz, if_true, List.length_append, List.length_cons, List.length_nil] at hi
+    have ht : (optz true nm).take i = nm.take i := by
+      simp only [optz, if_true]
+      rw [List.take_append_of_le_length (by omega)]
+    rw [ht]
+    have := readString_short 0 (nm.take i) (fun b hb => hz b (List.mem_of_mem_take hb)) (by simp; omega)
+    simp only [BgzfBytes.readOptString, if_true, this]
+
+theorem take_cons6 (i2 : Nat) (a b c d e f : Byte) (ex T : List Byte) :
+    (a :: b :: c :: d :: e :: f :: (ex ++ T)).take (6 + ex.length + i2) = a :: b :: c :: d :: e :: f :: (ex ++ T.take i2) := by
+  have : 6 + ex.length + i2 = (a :: b :: c :: d :: e :: f :: ex).length + i2 := by simp; omega
+  rw [this, show a :: b :: c :: d :: e :: f :: (ex ++ T) = (a :: b :: c :: d :: e :: f :: ex) ++ T by simp,
+    List.take_length_add_append]
+  simp
+
+theorem readExtra_short (flg x0 x1 : Byte) (r : List Byte) (hf : BgzfBytes.flagSet flg 4 = true)
+    (hl : r.length < x0.toNat + 256 * x1.toNat) :
+    BgzfBytes.readExtra flg (x0 :: x1 :: r) = .error .unexpectedEOF := by
+  simp only [BgzfBytes.readExtra, hf, if_true, hl]
+
+theorem readHeader_layout_cut (crc : List Byte → Nat) (flg m0 m1 m2 m3 xfl os x0 x1 a b c d e f : Byte)
+    (ex nm cm : List Byte) (pn pc : Bool)
+    (h4 : BgzfBytes.flagSet flg 4 = true) (h8 : BgzfBytes.flagSet flg 8 = pn) (h16 : BgzfBytes.flagSet flg 16 = pc)
+    (hx : x0.toNat + 256 * x1.toNat = 6 + ex.length)
+    (hnz : ∀ b ∈ nm, b ≠ 0) (hnl : nm.length < 512) (hcz : ∀ b ∈ cm, b ≠ 0) (hcl : cm.length < 512)
+    (k : Nat) (hk : k < 18 + ex.length + (optz pn nm).length + (optz pc cm).length) :
+    BgzfBytes.readHeader crc ((0x1f :: 0x8b :: 8 :: flg :: m0 :: m1 :: m2 :: m3 :: xfl :: os :: x0 :: x1 ::
+        a :: b :: c :: d :: e :: f :: (ex ++ (optz pn nm ++ optz pc cm))).take k) =
+      .error (if k = 0 then .eof else .unexpectedEOF) := by
+  have hid : ¬ ((0x1f : Byte) ≠ 0x1f ∨ (0x8b : Byte) ≠ 0x8b ∨ (8 : Byte) ≠ 8) := by decide
+  by_cases hk10 : k < 10
+  · have : k = 0 ∨ k = 1 ∨ k = 2 ∨ k = 3 ∨ k = 4 ∨ k = 5 ∨ k = 6 ∨ k = 7 ∨ k = 8 ∨ k = 9 := by omega
+    rcases this with rfl | rfl | rfl | rfl | rfl | rfl | rfl | rfl | rfl | rfl <;> simp [BgzfBytes.readHeader]
+  · obtain ⟨j, rfl⟩ : ∃ j, k = j + 10 := ⟨k - 10, by omega⟩
+    have hk0 : ¬ j + 10 = 0 := by omega
+    simp only [List.take_succ_cons, hk0, if_false, BgzfBytes.readHeader, hid]
+    by_cases hj2 : j < 2
+    · have : j = 0 ∨ j = 1 := by omega
+      rcases this with rfl | rfl <;> simp [BgzfBytes.readExtra, h4]
+    · obtain ⟨i, rfl⟩ : ∃ i, j = i + 2 := ⟨j - 2, by omega⟩
+      simp only [List.take_succ_cons]
+      by_cases hi : i < 6 + ex.length
+      · rw [readExtra_short _ _ _ _ h4 (by rw [hx, List.length_take]; omega)]
+      · obtain ⟨i2, rfl⟩ : ∃ i2, i = 6 + ex.length + i2 := ⟨i - (6 + ex.length), by omega⟩
+        rw [take_cons6, readExtra_cons6 _ _ _ _ _ _ _ _ _ _ _ h4 hx]
+        simp only [h8, h16]
+        rw [drop8 _ _ _ _ _ _ _ _ _ _ _ rfl]
+        by_cases hn : i2 < (optz pn nm).length
+        · rw [List.take_append_of_le_length (by omega), readOptString_cut pn nm hnz hnl i2 hn]
+        · obtain ⟨i3, rfl⟩ : ∃ i3, i2 = (optz pn nm).length + i3 := ⟨i2 - (optz pn nm).length, by omega⟩
+          rw [List.take_length_add_append, readOptString_optz pn nm _ hnz hnl]
+          simp only []
+          rw [← List.drop_drop, drop8 _ _ _ _ _ _ _ _ _ _ _ rfl, List.drop_left,
+            readOptString_cut pc cm hcz hcl i3 (by omega)]
+
+
+theorem writerHeader_length (c : CodecFns) (h : Header) (bsz : Nat) : (writerHeader c h bsz).length = hdrLen h := by
+  rw [hdrLen_eq]; simp [writerHeader]; omega
+
+theorem memberBytes_eq (c : CodecFns) (h : Header) (p : List Byte) (bsz : Nat) :
+    memberBytes c h p bsz = writerHeader c h bsz ++ (c.deflate p ++ (le32 (c.crc32 p) ++ le32 (p.length % 2 ^ 32))) := by
+  simp only [memberBytes, afterExtra, zbytes_optz, writerHeader, List.cons_append, List.append_assoc]
+
+/-- **The header bgzf.Writer writes — with any Name, Comment, user Extra, ModTime, OS that gzip.Writer and
+gzip.Reader accept — is a `HeaderOk` header of C10's lemma library**: `readHeader` reads it completely whatever
+follows, `expectedMemberSize` announces `bsz + 1`, and every proper prefix is a short read (the empty one the clean
+io.EOF). -/
+theorem writerHeader_ok (crc : List Byte → Nat) (c : CodecFns) (h : Header) (hk : HdrOK h) (hr : ReaderOK h) (bsz : Nat)
+    (hb : bsz < 65536) : Hts.Lemmas.BgzfBytes.HeaderOk crc (writerHeader c h bsz) (bsz + 1) := by
+  have hx : 6 + h.extra.length < 65536 := by have := hk.extra_le; omega
+  have hxe : (UInt8.ofNat ((6 + h.extra.length) % 256)).toNat + 256 * (UInt8.ofNat ((6 + h.extra.length) / 256 % 256)).toNat
+      = 6 + h.extra.length := u16_le16 _ hx
+  have hname : ∀ b ∈ h.name.map UInt8.ofNat, b ≠ 0 := by
+    intro b hb; simp at hb; obtain ⟨v, hv, rfl⟩ := hb; exact ofNat_ne_zero v (hk.name_ok v hv)
+  have hcomm : ∀ b ∈ h.comment.map UInt8.ofNat, b ≠ 0 := by
+    intro b hb; simp at hb; obtain ⟨v, hv, rfl⟩ := hb; exact ofNat_ne_zero v (hk.comment_ok v hv)
+  have hnl : (h.name.map UInt8.ofNat).length < 512 := by have := hr.1; simp; omega
+  have hcl : (h.comment.map UInt8.ofNat).length < 512 := by have := hr.2; simp; omega
+  have hflags : BgzfBytes.flagSet (flgOf h) 4 = true ∧ BgzfBytes.flagSet (flgOf h) 8 = decide (h.name ≠ []) ∧
+      BgzfBytes.flagSet (flgOf h) 16 = decide (h.comment ≠ []) ∧ BgzfBytes.flagSet (flgOf h) 2 = false := by
+    by_cases hn : h.name = [] <;> by_cases hc : h.comment = [] <;> simp [flgOf, hn, hc] <;> decide
+  obtain ⟨g4, g8, g16, g2⟩ := hflags
+  constructor
+  · intro t
+    have hl := readHeader_layout crc (flgOf h) (UInt8.ofNat (h.mtime % 2 ^ 32 % 256)) (UInt8.ofNat (h.mtime % 2 ^ 32 / 256 % 256))
+      (UInt8.ofNat (h.mtime % 2 ^ 32 / 65536 % 256)) (UInt8.ofNat (h.mtime % 2 ^ 32 / 16777216 % 256)) c.xfl h.os _ _
+      66 67 2 0 (UInt8.ofNat (bsz % 256)) (UInt8.ofNat (bsz / 256 % 256)) h.extra (h.name.map UInt8.ofNat) (h.comment.map UInt8.ofNat)
+      t _ _ g4 g8 g16 g2 hxe hname hnl hcomm hcl
+    have hw : writerHeader c h bsz ++ t = _ := (by simp only [writerHeader, List.cons_append, List.append_assoc] :
+      writerHeader c h bsz ++ t = 0x1f :: 0x8b :: 8 :: flgOf h :: UInt8.ofNat (h.mtime % 2 ^ 32 % 256) ::
+        UInt8.ofNat (h.mtime % 2 ^ 32 / 256 % 256) :: UInt8.ofNat (h.mtime % 2 ^ 32 / 65536 % 256) ::
+        UInt8.ofNat (h.mtime % 2 ^ 32 / 16777216 % 256) :: c.xfl :: h.os ::
+        UInt8.ofNat ((6 + h.extra.length) % 256) :: UInt8.ofNat ((6 + h.extra.length) / 256 % 256) ::
+        66 :: 67 :: 2 :: 0 :: UInt8.ofNat (bsz % 256) :: UInt8.ofNat (bsz / 256 % 256) ::
+        (h.extra ++ (optz (decide (h.name ≠ [])) (h.name.map UInt8.ofNat) ++
+          (optz (decide (h.comment ≠ [])) (h.comment.map UInt8.ofNat) ++ t))))
+    rw [hw, hl, writerHeader_length, hdrLen_eq]
+    exact ⟨_, rfl, expectedMemberSize_bytes bsz hb h.extra⟩
+  · intro k hk'
+    rw [writerHeader_length, hdrLen_eq] at hk'
+    exact readHeader_layout_cut crc (flgOf h) _ _ _ _ c.xfl h.os _ _ 66 67 2 0 _ _ h.extra _ _ _ _ g4 g8 g16 hxe
+      hname hnl hcomm hcl k hk'
+
+/-- the member the writer produces for payload `p`, as a member of C10's lemma library -/
+def blockM (c : CodecFns) (h : Header) (p : List Byte) : Hts.Lemmas.BgzfBytes.Member :=
+  { header := writerHeader c h (memberLen c h p - 1), cdata := c.deflate p, crc := le32 (c.crc32 p),
+    isize := le32 (p.length % 2 ^ 32), payload := p }
+
+theorem blockM_bytes (c : CodecFns) (h : Header) (p : List Byte) : (blockM c h p).bytes = mb c h p := by
+  simp only [blockM, Hts.Lemmas.BgzfBytes.Member.bytes, Hts.Lemmas.BgzfBytes.Member.body, mb, memberBytes_eq]
+
+/-- every member the writer produces (any accepted header) is well-framed in the sense of C10's lemma library, so
+C10's theorems about streams of well-framed members (`readAll_stream`, the truncation theorem `readAll_take`, …) apply
+to the writer's streams under every header setting, not only the default 18-byte header. -/
+theorem blockM_wf (c : Codec) (h : Header) (p : List Byte) (hk : HdrOK h) (hr : ReaderOK h)
+    (hlen : memberLen c.toCodecFns h p ≤ BgzfWriter.MaxBlockSize) (hp : p.length ≤ BgzfWriter.MaxBlockSize) :
+    (blockM c.toCodecFns h p).WellFramed (toBytesCodec c.toCodecFns) := by
+  have h18 : 18 ≤ memberLen c.toCodecFns h p := by simp [memberLen]; omega
+  have hb : memberLen c.toCodecFns h p - 1 < 65536 := by simp [BgzfWriter.MaxBlockSize] at hlen; omega
+  have hsize : (blockM c.toCodecFns h p).size = memberLen c.toCodecFns h p - 1 + 1 := by
+    simp only [Hts.Lemmas.BgzfBytes.Member.size, blockM, writerHeader_length]
+    simp [memberLen, hdrLen]
+  have hcrc := c.crc32_lt p
+  have hisz : p.length % 2 ^ 32 < 2 ^ 32 := Nat.mod_lt _ (by decide)
+  exact
+    { hdrOk := by rw [hsize]; exact writerHeader_ok _ c.toCodecFns h hk hr _ hb
+      crcLen := rfl, isizeLen := rfl,
+      inflates := by simp [toBytesCodec, blockM, Hts.Lemmas.BgzfBytes.Member.body, c.inflate_deflate],
+      crcOk := by simp only [blockM]; exact leNat_le32 _ hcrc,
+      isizeOk := by simp only [blockM]; exact leNat_le32 _ hisz,
+      fits := hp }
 
 end Hts.Model.Member
